@@ -227,6 +227,7 @@ namespace internal
 		{
 			VersionKeeper::Check();
 			MOMO_CHECK(mValueIterator != ValueIterator());
+			mKeyIterator.operator->();	// check
 			++mValueIterator;
 			pvMove();
 			return *this;
